@@ -341,8 +341,22 @@ def rule_oblig(crate, select=None, min_rows=30):
             continue
         n_paths = 0
         bad = None
+        over = None
+        # enforce_dtype matters for CLOSED operand types only because it records the type parameters of a closed
+        # dimension type as "used as a dimension" (the missing-`Dim`-bound check)
+        ed = crate.hir.get("crate::typechecker::TypeChecker::enforce_dtype")
+        records_tpar = ed is not None and any((ctor_variant(y) or ("", ""))[1] == "TPar" for y in walk(ed["body"]) if y.get("k") in ("Call", "Struct", "Path"))
+        demands_dtype = records_tpar and closure_node is not None and any(y.get("k") == "MethodCall" and y["name"] in ("enforce_dtype", "add_dtype_constraint") for y in walk(closure_node["body"]))
         for conds, leaf in _if_paths(a["body"]):
             n_paths += 1
+            if leaf is not None and demands_dtype and closure_id is not None and Calls(crate, fe, leaf, tagmap).closure_called(closure_id):
+                differ = False
+                for cnd, pol in conds:
+                    fc = _full_type_comparison(crate, cnd)
+                    if (fc == "ne" and pol is True) or (fc == "eq" and pol is False):
+                        differ = True
+                if not differ:
+                    over = leaf
             if leaf is not None:
                 lc = Calls(crate, fe, leaf, tagmap)
                 if lc.has_equal({"lhs"}, {"rhs"}) or (closure_id is not None and lc.closure_called(closure_id)):
@@ -359,6 +373,9 @@ def rule_oblig(crate, select=None, min_rows=30):
         for v in sorted(vs):
             if n_paths < 2:
                 continue
+            if demands_dtype:
+                row("binop:%s:dtype-demand-only-on-different-types" % v, over is None, a["pat"], "the dimension-type demand (enforce_dtype) is reached only after a full comparison found the operand types different",
+                    "`%s` is defined for values of every type, but a path of its arm runs the shared helper that DEMANDS dimension types (enforce_dtype) for operands whose types are already identical: `fn eq<A>(x: A, y: A) -> Bool = x == y` — the signature the checker itself infers for `fn eq(x, y) = x == y` — is rejected with 'Missing dimension bound for type parameter'" % v)
             row("binop:%s:every-path-relates-operands" % v, bad is None, a["pat"], "each of the %d paths of the arm constrains the operand types, rejects, or has passed a full comparison of the two types" % n_paths,
                 "a path through the `%s` arm accepts the comparison although the operand types were neither constrained to be equal nor compared completely (only a shallow test such as `has_incompatible_constructor` guards it): `[1 m, 2 m] == [1 s, 2 s]` and `Pair<Length> == Pair<Time>` are accepted" % v)
     adt = crate.adts.get(OPADT)
